@@ -287,41 +287,48 @@ def Session.isLastTransfer (x : Session) : Bool := !x.carousel && (x.maxtc == x.
 /-- `FileDesc::is_expired` -/
 def Session.isExpired (x : Session) : Bool := if x.maxtc > x.count then false else !x.carousel
 
+/-- `get_next_file_transfer`: out of the queue, `transfer_started` (`TransferInfo::init` resets the count of a carousel burst) -/
+def Session.start (x : Session) : Session :=
+  let x := { x with queued := false }
+  if x.count == x.maxtc && x.carousel then { x with count := 0 } else x
+
+/-- `SenderSession::get_next`: if no transfer is running and the object is eligible, start one:
+    `BlockEncoder::new(file, interleave_blocks, file.is_last_transfer())` -/
+def Session.getNext (x : Session) : Rs Session :=
+  match x.enc with
+  | some _ => .ok x
+  | none =>
+    if x.queued && x.shouldTransferNow then
+      match Enc.new x.start.P x.start.src x.start.isLastTransfer with
+      | .error w => .error w
+      | .ok e => .ok { x.start with enc := some e }
+    else .ok x
+
+/-- `must_stop_transfer`: removed from the FDT and (sent at least once or immediate stop allowed) -/
+def Session.mustStop (x : Session) : Bool := (x.allowStop || decide (x.total > 0)) && !x.added
+
+/-- `release_file` → `Fdt::transfer_done`; the source keeps its position / schedule -/
+def Session.release (x : Session) (e' : Enc) : Session :=
+  let x := { x with src := e'.src, enc := none, count := x.count + 1, total := x.total + 1, lastEnd := some x.now }
+  if !x.added then x
+  else if !x.isExpired then { x with queued := true }
+  else { x with added := false }
+
 /-- `SenderSession::run` restricted to one object (no FDT pending, no pacing) -/
 def Session.runLoop : Nat → Session → Out × Session
   | 0, x => (.hang, x)
   | fuel + 1, x =>
-    -- get_next
-    let r : Rs Session :=
-      match x.enc with
-      | some _ => .ok x
-      | none =>
-        if x.queued && x.shouldTransferNow then
-          -- get_next_file_transfer: remove from the queue, transfer_started (TransferInfo::init)
-          let x := { x with queued := false }
-          let x := if x.count == x.maxtc && x.carousel then { x with count := 0 } else x
-          match Enc.new x.P x.src x.isLastTransfer with
-          | .error w => .error w
-          | .ok e => .ok { x with enc := some e }
-        else .ok x
-    match r with
+    match x.getNext with
     | .error _ => (.panic, x)
     | .ok x =>
     match x.enc with
     | none => (.none, x)
     | some e =>
-      let mustStop := (x.allowStop || decide (x.total > 0)) && !x.added
-      match read x.P e mustStop with
+      match read x.P e x.mustStop with
       | (.pkt p, e') => (.pkt p, { x with enc := some e' })
       | (.panic, e') => (.panic, { x with enc := some e' })
       | (.hang, e') => (.hang, { x with enc := some e' })
-      | (.none, e') =>
-        -- release_file → Fdt::transfer_done; the stream keeps its position / schedule
-        let x := { x with src := e'.src, enc := none, count := x.count + 1, total := x.total + 1, lastEnd := some x.now }
-        let x := if !x.added then x
-                 else if !x.isExpired then { x with queued := true }
-                 else { x with added := false }
-        Session.runLoop fuel x
+      | (.none, e') => Session.runLoop fuel (x.release e')
 
 def Session.read (x : Session) : Out × Session := Session.runLoop 4 x
 
